@@ -3,6 +3,7 @@
 package snaps
 
 import (
+	"bytes"
 	"encoding/json"
 	"fmt"
 	"os"
@@ -32,8 +33,9 @@ type c03Op struct {
 }
 
 type c03Case struct {
-	Pre []vfEntry `json:"pre,omitempty"` // Body = value
-	Ops []c03Op   `json:"ops"`
+	Pre       []vfEntry `json:"pre,omitempty"` // Body = value
+	Ops       []c03Op   `json:"ops"`
+	NoFinalNL bool      `json:"nofinalnl,omitempty"` // the pre-existing file lost its final newline (an editor trimmed it)
 }
 
 func (o c03Op) String() string {
@@ -70,6 +72,14 @@ func c03Apply(c *vfCtx, cs c03Case, checkFrom int) (key uint64, ok bool) {
 		m.preload("f.snap", p.ID, p.Body)
 	}
 	vfWriteModelFiles(dir, m)
+	if cs.NoFinalNL {
+		p := filepath.Join(dir, "f.snap")
+		if b, err := os.ReadFile(p); err == nil {
+			os.WriteFile(p, bytes.TrimSuffix(b, []byte("\n")), 0o644)
+		}
+		vfParseNoFinalNL = true
+		defer func() { vfParseNoFinalNL = false }()
+	}
 	live := map[string]*vfT{}
 	for i, op := range cs.Ops {
 		t := live[op.Test]
@@ -394,6 +404,13 @@ func c03NoCreate(emit func(c03Case)) {
 		emit(c03Case{Ops: []c03Op{nc("TestA", "a"), cl("TestA", "b"), cl(other, "o"), nc("TestA", "c"), cl("TestA", "d"), end("TestA"), end(other),
 			nc("TestA", "a"), cl("TestA", "b"), cl(other, "o"), nc("TestA", "c"), cl("TestA", "d"), end("TestA"),
 			cl("TestA", "a"), cl("TestA", "b"), cl("TestA", "c"), cl("TestA", "d")}})
+	}
+	// a pre-existing file whose final newline was trimmed: the LAST entry is still found, matched, updated; others too
+	pre := []vfEntry{{ID: "TestA - 1", Body: "a1"}, {ID: "TestB - 1", Body: "b1"}, {ID: "TestA - 2", Body: "last"}}
+	for _, upd := range []bool{false, true} {
+		emit(c03Case{Pre: pre, NoFinalNL: true, Ops: []c03Op{cl("TestA", "a1"), cl("TestA", "last"), cl("TestB", "b1"), end("TestA"), end("TestB"),
+			{Op: "call", Test: "TestB", Val: "b1 changed", Upd: upd}, cl("TestA", "a1"), cl("TestA", "last"), end("TestA"), end("TestB"), cl("TestA", "a1"), cl("TestA", "last"), cl("TestA", "third")}})
+		emit(c03Case{Pre: pre, NoFinalNL: true, Ops: []c03Op{cl("TestA", "a1"), {Op: "call", Test: "TestA", Val: "last changed", Upd: upd}, cl("TestB", "b1")}})
 	}
 	emit(c03Case{Pre: []vfEntry{{ID: "TestA - 3", Body: "three"}}, Ops: []c03Op{cl("TestA", "one"), nc("TestA", "missing two"), cl("TestA", "three"), end("TestA"), cl("TestA", "one"), nc("TestA", "x"), cl("TestA", "three")}})
 }
